@@ -276,11 +276,23 @@ fn c18_one(i: usize, seed: u64, acc: &mut Acc) {
   if with_fc {
     acc.count("graphs_with_fast_check_modules");
   }
-  let module_specs: Vec<ModuleSpecifier> =
+  let mut module_specs: Vec<ModuleSpecifier> =
     g.modules().map(|m| m.specifier().clone()).collect();
   if module_specs.is_empty() {
     return;
   }
+  // a segment root may also be named by a redirecting specifier (the usual
+  // shape of a jsr: / unversioned https root)
+  let redirecting: Vec<ModuleSpecifier> = g
+    .redirects
+    .keys()
+    .filter(|k| g.try_get(k).is_ok_and(|m| m.is_some()))
+    .cloned()
+    .collect();
+  if !redirecting.is_empty() {
+    acc.count("graphs_with_redirecting_root_candidates");
+  }
+  module_specs.extend(redirecting);
   let n_segments = 4;
   for _ in 0..n_segments {
     let mut roots = module_specs.clone();
@@ -392,7 +404,27 @@ fn c18_one(i: usize, seed: u64, acc: &mut Acc) {
         );
       }
     }
+    if roots.iter().any(|r| g.redirects.contains_key(r)) {
+      acc.count("segments_with_a_redirecting_root");
+    }
+    // (when every requested root is a root of the original, segment() is a
+    // plain clone - a documented superset)
+    if !all_roots {
+      let want: BTreeSet<String> = roots.iter().map(|r| r.to_string()).collect();
+      let got: BTreeSet<String> = seg.roots.iter().map(|r| r.to_string()).collect();
+      if want != got {
+        acc.violation("segment/roots-differ-from-requested", format!("requested {:?}, segment has {:?}", want, got), w(json!({})));
+      }
+    }
     for r in &roots {
+      for (name, a, b) in [
+        ("resolve", g.resolve(r).to_string(), seg.resolve(r).to_string()),
+        ("contains", g.contains(r).to_string(), seg.contains(r).to_string()),
+      ] {
+        if a != b {
+          acc.violation(format!("segment/{}-root-differs", name), format!("{}: original {} segment {}", r, a, b), w(json!({})));
+        }
+      }
       let a = g.try_get(r).map(|m| m.map(|m| m.specifier().to_string())).map_err(|e| e.to_string());
       let b = seg.try_get(r).map(|m| m.map(|m| m.specifier().to_string())).map_err(|e| e.to_string());
       if a != b {
